@@ -1217,6 +1217,20 @@ class Knowledge:
             return self._decide_cmp(op, atom.args[0], atom.args[1])
         if op == 'truthy':
             x = atom.args[0]
+            if isinstance(x, Sym) and x.op == 'slice' and \
+                    typeof(x.args[0]) is not None and \
+                    typeof(x.args[0]) <= {'bytes', 'bytearray', 'str'} and \
+                    nonneg(x.args[1], self):
+                # b[lo:] is non-empty iff len(b) > lo
+                d1 = self._decide_cmp('gt', length(x.args[0]), x.args[1])
+                if x.args[2] is None:
+                    return d1
+                d2 = self._decide_cmp('gt', x.args[2], x.args[1])
+                if d1 is False or d2 is False:
+                    return False
+                if d1 is True and d2 is True:
+                    return True
+                return None
             t = typeof(x)
             if t is not None and t <= {'bytes', 'str', 'bytearray', 'tuple',
                                        'list', 'dict'} and \
